@@ -290,6 +290,7 @@ class Fn:
         self.arrays = {}        # local arrays: name -> type string
         self.decl_names = {}    # decl id -> unique variable name
         self.used = {}
+        self.addr_taken = set() # ids of local scalars whose address is taken (they live in memory as one-cell arrays)
 
     def tmp(self):
         self.ntmp += 1
@@ -414,7 +415,7 @@ class Fn:
             if ck == "LValueToRValue":
                 s = self.strip(sub)
                 if s.get("kind") == "DeclRefExpr" and s["referencedDecl"]["kind"] == "EnumConstantDecl":
-                    return [], "(EConst %d)" % self.tr.enum_value(s["referencedDecl"])
+                    return [], "(EConst %s)" % zc(self.tr.enum_value(s["referencedDecl"]))
                 t = T.qual(n)
                 lvr = self.lv(sub)
                 if lvr[0] == "var":
@@ -444,7 +445,7 @@ class Fn:
         if k == "DeclRefExpr":
             rd = n["referencedDecl"]
             if rd["kind"] == "EnumConstantDecl":
-                return [], "(EConst %d)" % self.tr.enum_value(rd)
+                return [], "(EConst %s)" % zc(self.tr.enum_value(rd))
             raise GenError("rvalue DeclRefExpr %s" % rd.get("name"))
         if k == "UnaryExprOrTypeTraitExpr":
             if n.get("name") != "sizeof":
@@ -557,7 +558,8 @@ class Fn:
             pre = self.call(n, t)
             return pre, "(EVar %s)" % q(t)
         if k == "CXXNewExpr":
-            raise GenError("new-expression outside an initialiser in %s" % self.name)
+            t = self.tmp()
+            return self.new_expr(n, t), "(EVar %s)" % q(t)
         if k == "MemberExpr" or k == "ArraySubscriptExpr":
             # an lvalue used where a pointer to a record is needed (reference binding)
             lvr = self.lv(n)
@@ -567,6 +569,32 @@ class Fn:
 
     def strip_casts_for_type(self, n):
         return n
+
+    def new_expr(self, init, vn):
+        """statements for  vn = new T[n]  /  vn = new Class(args)"""
+        T = self.T
+        rt = clean_ty(T.qual(init))
+        et = T.pointee(rt)
+        if init.get("isArray"):
+            p, e = self.rv(init["inner"][0])
+            return p + ["(SNew %s %s %s)" % (q(vn), T.ity(et), e)]
+        cls = clean_ty(et)
+        objs = class_objects(self.tr.layouts, T, cls)
+        ce = [c for c in init.get("inner", []) if c.get("kind") == "CXXConstructExpr"]
+        cargs = ce[0].get("inner", []) if ce else []
+        cargs = [a for a in cargs if self.strip(a).get("kind") != "CXXDefaultArgExpr"]
+        info = self.tr.by_key.get((cls, cls, len(cargs)))
+        ptypes = info["ptypes"] if info else [None] * len(cargs)
+        pre, es = self.args(cargs, ptypes)
+        ctor = "None"
+        if (cls, cls, len(cargs)) in self.tr.fdecls or (cls, cls, len(cargs)) in self.tr.by_key:
+            # (defined in this or in another translation unit: the programs are linked by concatenating the function lists)
+            ctor = "(Some %s)" % q("%s::%s/%d" % (cls, cls, len(cargs)))
+            self.tr.needed.add((cls, cls, len(cargs)))
+        else:
+            raise GenError("constructor %s/%d not declared" % (cls, len(cargs)))
+        ol = "[" + "; ".join("(%s, %s, %d)" % (q(a), b, c) for a, b, c in objs) + "]"
+        return pre + ["(SNewObj %s %s %s %s [%s])" % (q(vn), q(cls), ol, ctor, "; ".join(es))]
 
     def incdec(self, n, want_value):
         op = n["opcode"]
@@ -657,7 +685,7 @@ class Fn:
                     ([] if ret is None else ["(SSet %s %s)" % (q(ret), es[0])])
             if fname in ("fflush",):
                 return []
-            if fname in ("fread", "fwrite", "feof", "fgetc", "ungetc", "isalnum"):
+            if fname in ("fread", "fwrite", "feof", "fgetc", "ungetc", "isalnum", "fseek", "strlen"):
                 pre, es = self.args(args, [None] * len(args))
                 return pre + ["(SPrim %s %s [%s])" % (r, q(fname), "; ".join(es))]
             if fname in ("printload",):
@@ -670,6 +698,11 @@ class Fn:
             mname = callee["name"]
             base = callee["inner"][0]
             b = self.strip_this(base)
+            if b is not None and re.search(r"ResPrint|ResultPrint", self.T.qual(b)):
+                # result / progress printing (AbsResultPrint hierarchy): no effect on the data, dropped
+                if ret is not None:
+                    raise GenError("value of a printer call used in %s" % self.name)
+                return []
             mid = callee.get("referencedMemberDecl")
             if b is None:
                 hint = self.cls
@@ -678,6 +711,10 @@ class Fn:
             else:
                 hint = clean_ty(self.T.qual(b))
             info = self.tr.method_info(mid, mname, len(args), hint)
+            ovi = self.tr.pick_overload(info["cls"], mname, len(args), [self.T.qual(self.strip(x)) for x in args]) if args else None
+            if ovi is not None:
+                info = ovi
+            sfx = self.tr.suffix(info["cls"], mname, len(args), info["ptypes"])
             pre, es = self.args(args, info.get("ptypes", [None] * len(args)))
             if b is None:
                 this = "None"
@@ -702,7 +739,7 @@ class Fn:
             if virt:
                 return pre + ["(SCallVirt %s %s %s [%s])" % (r, q("%s/%d" % (mname, len(args))), this, "; ".join(es))]
             cls = self.tr.resolve_static(static_cls, mname, len(args), info["cls"])
-            return pre + ["(SCall %s %s %s [%s])" % (r, q("%s::%s/%d" % (cls, mname, len(args))), this, "; ".join(es))]
+            return pre + ["(SCall %s %s %s [%s])" % (r, q("%s::%s/%d%s" % (cls, mname, len(args), sfx)), this, "; ".join(es))]
         raise GenError("call through %s in %s" % (callee.get("kind"), self.name))
 
     def args(self, args, ptypes):
@@ -724,6 +761,16 @@ class Fn:
                 pre += p
                 es.append(e)
         return pre, es
+
+    def prescan(self, n):
+        """local scalars whose address is taken (&x)"""
+        if n.get("kind") == "UnaryOperator" and n.get("opcode") == "&":
+            m = self.strip(n["inner"][0])
+            if m.get("kind") == "DeclRefExpr" and m["referencedDecl"]["kind"] in ("VarDecl",):
+                self.addr_taken.add(m["referencedDecl"]["id"])
+        for c in n.get("inner", []):
+            if isinstance(c, dict):
+                self.prescan(c)
 
     # ---- statements
     def stmt_expr(self, n):
@@ -779,6 +826,15 @@ class Fn:
                     if d.get("inner"):
                         raise GenError("initialised local array %s" % vn)
                     continue
+                if d.get("id") in self.addr_taken and T.is_int(tc):
+                    self.arrays[vn] = tc + "[1]"
+                    out.append("(SLocalArr %s %s 1)" % (q(vn), T.ity(tc)))
+                    if d.get("inner"):
+                        p, e = self.rv(d["inner"][0])
+                        out += p + ["(SStore %s (ELocalArr %s) %s)" % (T.ity(tc), q(vn), e)]
+                    continue
+                if "_Bind" in t or "std::function" in t:
+                    continue        # auto boundfunc = std::bind(&AbsResultPrint::printpercentage, ...): the progress callback
                 if tc.endswith("&"):
                     self.refs.add(vn)
                     lvr = self.lv(d["inner"][0])
@@ -789,12 +845,7 @@ class Fn:
                 if d.get("inner"):
                     init = self.strip(d["inner"][0])
                     if init.get("kind") == "CXXNewExpr":
-                        # new T[n]
-                        if not init.get("isArray"):
-                            raise GenError("non-array new")
-                        et = T.pointee(tc)
-                        p, e = self.rv(init["inner"][0])
-                        out += p + ["(SNew %s %s %s)" % (q(vn), T.ity(et), e)]
+                        out += self.new_expr(init, vn)
                         continue
                     p, e = self.rv(d["inner"][0])
                     out += p + ["(SSet %s %s)" % (q(vn), e)]
@@ -939,6 +990,8 @@ class Unit:
         self.ret_ref = {}
         self.bases = {}
         self.scalar_globals = set()
+        self.needed = set()
+        self.overloads = {}     # (class, method, arity) -> {ptypes tuple: info} when overloaded on parameter types
         self.by_key = {}        # (class, method, arity) -> info
         docs = []
         for f in filters:
@@ -975,6 +1028,8 @@ class Unit:
                 self.scan(c, name if name else cls)
             return
         if k in ("CXXMethodDecl", "FunctionDecl", "CXXConstructorDecl"):
+            if n.get("isImplicit"):
+                return          # compiler-generated copy/move constructors and assignment operators
             name = n.get("name")
             params = [c for c in n.get("inner", []) if c.get("kind") == "ParmVarDecl"]
             owner = cls
@@ -988,6 +1043,9 @@ class Unit:
                 old = self.by_key.get((owner, name, len(params)))
                 if old is not None:
                     info["virtual"] = info["virtual"] or old["virtual"]
+                    if old["ptypes"] != info["ptypes"]:
+                        self.overloads.setdefault((owner, name, len(params)), {})[tuple(old["ptypes"])] = old
+                        self.overloads[(owner, name, len(params))][tuple(info["ptypes"])] = info
                 self.by_key[(owner, name, len(params))] = info
             if n.get("previousDecl") and n["previousDecl"] in self.methods:
                 prev = self.methods[n["previousDecl"]]
@@ -995,7 +1053,9 @@ class Unit:
                 info["virtual"] = info["virtual"] or prev["virtual"]
             body = [c for c in n.get("inner", []) if c.get("kind") == "CompoundStmt"]
             if body:
-                self.fdecls[(info["cls"], name, len(params))] = (n, info)
+                lst = self.fdecls.setdefault((info["cls"], name, len(params)), [])
+                if not any(x[1]["ptypes"] == info["ptypes"] for x in lst):
+                    lst.append((n, info))
             return
         if k == "VarDecl" and n.get("inner") and cls is None or (k == "VarDecl" and n.get("storageClass") == "static"):
             self.scan_global(n, cls)
@@ -1147,13 +1207,29 @@ class Unit:
             raise GenError("pointer stored in memory: %s" % lvr[2])
         return lvr[1], "(EPtrVar %s)" % lvr[2]
 
+    def suffix(self, cls, name, arity, ptypes):
+        """distinguishes overloads that differ only in parameter types: @<first differing parameter type>"""
+        ov = self.overloads.get((cls, name, arity))
+        if not ov or len(ov) < 2:
+            return ""
+        return "@" + re.sub(r"\W+", "_", clean_ty(ptypes[0])).strip("_")
+
+    def pick_overload(self, cls, name, arity, argtypes):
+        ov = self.overloads.get((cls, name, arity))
+        if not ov or len(ov) < 2:
+            return None
+        for pt, info in ov.items():
+            if clean_ty(pt[0]).replace(" ", "") == clean_ty(argtypes[0]).replace(" ", ""):
+                return info
+        raise GenError("cannot resolve overload %s::%s/%d for argument type %s" % (cls, name, arity, argtypes[0]))
+
     def translate(self, cls, name, arity=None):
-        cands = [(key, v) for key, v in self.fdecls.items() if key[1] == name and (cls is None or key[0] == cls) and (arity is None or key[2] == arity)]
+        cands = [(key, v) for key, lst in self.fdecls.items() for v in lst if key[1] == name and (cls is None or key[0] == cls) and (arity is None or key[2] == arity)]
         if not cands:
             raise GenError("function %s%s not found in %s" % ((cls + "::") if cls else "", name, self.src))
         out = []
         for key, (node, info) in cands:
-            full = "%s%s/%d" % ((key[0] + "::") if key[0] else "", name, key[2])
+            full = "%s%s/%d%s" % ((key[0] + "::") if key[0] else "", name, key[2], self.suffix(key[0], name, key[2], info["ptypes"]))
             fn = Fn(self, key[0], full)
             fn.info = info
             params = []
@@ -1167,6 +1243,7 @@ class Unit:
                         fn.refs.add(vn)
                     params.append(vn)
             body = [c for c in node["inner"] if c.get("kind") == "CompoundStmt"][0]
+            fn.prescan(body)
             inits = []
             for c in node.get("inner", []):
                 if c.get("kind") == "CXXCtorInitializer":
@@ -1426,7 +1503,7 @@ def unit_sync():
         u = u1 if key in u1.fdecls else u2
         if key not in u.fdecls:
             raise GenError("function %s%s/%d of the hand-over protocol not found" % ((cls + "::") if cls else "", name, ar))
-        rows.append(("%s%s/%d" % ((cls + "::") if cls else "", name, ar), canon_fn(u.fdecls[key][0])))
+        rows.append(("%s%s/%d" % ((cls + "::") if cls else "", name, ar), canon_fn(u.fdecls[key][0][0])))
     body = "(* GENERATED by tools/cgen.py from kernel/multi_aes/multi_buffergroup.cpp, multi_buffergroup.h, multicry.cpp -- do not edit *)\n"
     body += "(* canonical text (macros expanded with the verification guard OFF, comments and implicit nodes dropped) of every function of the\n   buffer hand-over protocol: PipeConc.v was written from exactly this text, PipeSync.v pins it *)\n"
     body += "From Coq Require Import List String.\nImport ListNotations.\nLocal Open Scope string_scope.\n\n"
@@ -1440,6 +1517,31 @@ def unit_sync():
     return False
 
 
+def unit_fheader():
+    u = Unit("kernel/fheader.cpp", None, ["hmac", "FileHeader", "HashFactory", "sha1hash", "md5hash", "sha256hash", "buffer64", "Hashmaster"], layout_src="kernel/cry.cpp")
+    fs = []
+    for cls, m, ar in (("hmac", "getres", 4), ("hmac", "gethmac", 5), ("hmac", "cmphmac", 5), ("hmac", "writeFileHmac", 6), ("hmac", "get_length", 0),
+                       ("FileHeader", "getIV", 2), ("FileHeader", "getFileHeader", 1), ("FileHeader", "checkType", 0), ("FileHeader", "checkMn", 0),
+                       ("FileHeader", "getHmac", 1), ("FileHeader", "getctype", 0), ("FileHeader", "gethtype", 0), ("FileHeader", "FileHeader", 6),
+                       ("sha1hash", "sha1hash", 0), ("md5hash", "md5hash", 0), ("sha256hash", "sha256hash", 0)):
+        fs += u.translate(cls, m, ar)
+    cl = [(c, class_objects(u.layouts, u.types, c)) for c in ("hmac", "FileHeader")]
+    return emit_unit("Src_fheader.v", [u.src, "kernel/fheader.h", "kernel/hash/hashmaster.h"], fs, uniq_globals(u), cl, u.scalar_globals)
+
+
+def unit_hashfactory():
+    u = Unit("kernel/hash/hashmaster.cpp", None, ["HashFactory", "sha1hash", "md5hash", "sha256hash", "Hashmaster"], layout_src="kernel/fheader.cpp")
+    fs = u.translate("HashFactory", "getType", 1) + u.translate("HashFactory", "getHasher", 1)
+    return emit_unit("Src_hashfactory.v", [u.src], fs, [], [], u.scalar_globals)
+
+
+def unit_cry():
+    u = Unit("kernel/cry.cpp", None, ["runcrypt", "FileHeader", "hmac", "multicry_master"])
+    fs = u.translate("runcrypt", "verify", 1) + u.translate("runcrypt", "prepare_IV", 1) + u.translate("runcrypt", "prepare_IV", 0)
+    cl = [("runcrypt", class_objects(u.layouts, u.types, "runcrypt"))]
+    return emit_unit("Src_cry.v", [u.src, "kernel/cry.h"], fs, [], cl, u.scalar_globals)
+
+
 UNITS = [("Src_sha256.v", unit_hash("Src_sha256.v", "sha256hash", "kernel/hash/sha256.cpp", [("getwdata", 0)] + HASH_METHODS)),
          ("Src_sha1.v", unit_hash("Src_sha1.v", "sha1hash", "kernel/hash/sha1.cpp", [("getwdata", 0)] + HASH_METHODS)),
          ("Src_md5.v", unit_hash("Src_md5.v", "md5hash", "kernel/hash/md5.cpp", HASH_METHODS)),
@@ -1449,7 +1551,10 @@ UNITS = [("Src_sha256.v", unit_hash("Src_sha256.v", "sha256hash", "kernel/hash/s
          ("Src_base64.v", unit_base64),
          ("Src_iobuffer.v", unit_iobuffer),
          ("Src_hashbuffer.v", unit_hashbuffer),
-         ("Sync.v", unit_sync)]
+         ("Sync.v", unit_sync),
+         ("Src_hashfactory.v", unit_hashfactory),
+         ("Src_fheader.v", unit_fheader),
+         ("Src_cry.v", unit_cry)]
 
 
 def main():
